@@ -664,6 +664,151 @@ Section Calls.
         apply (FIN r0 w5 H5 (rsteps_trans im _ _ _ R24 R5)); [|constructor]; rewrite E; ak_solve.
   Qed.
 
+  (* ---------- a whole JWE encrypt / decrypt call (direct encryption, AES key wrapping) ---------- *)
+  Definition jwe_reg_fn (alg enc : string) (allowed : option (list string)) : res (string * list string) :=
+    jwe_reg alg enc allowed
+      (OJwe (option_map (fun r => (ea_family r, ea_key_types r))
+                        (find (fun r => String.eqb (ea_name r) alg) (st_jwe_algs st)))
+            (smem alg (st_jwe_reco st))
+            (existsb (fun r => String.eqb (ee_name r) enc) (st_jwe_encs st))
+            (smem enc (st_jwe_reco st))).
+  Lemma jwereg_obs w1 alg enc allowed : ww w1 ->
+    jwe_reg alg enc allowed (snd (sem im (AJweAlg alg enc) w1)) = jwe_reg_fn alg enc allowed.
+  Proof. intros [_ [_ [S _]]]. simpl. rewrite S. reflexivity. Qed.
+
+  Definition jwe_after (encrypt : bool) (k : nat) (v : pv) (alg enc : string) (allowed : option (list string))
+             (crypto : option jcls) : res pv :=
+    match py_truthy_str (field_of k (asc "use")) with
+    | Some s => if str_eqb s (asc "enc") then
+                  match jwe_reg_fn alg enc allowed with
+                  | Err e => Err e
+                  | Ok (fam, kts) =>
+                    if String.eqb fam "dir" then
+                      if smem (ki_kty (kim im k)) kts then fin_fn crypto v else Err (EJose InvalidKeyTypeError)
+                    else if String.eqb fam "AESKW" then
+                      if smem (ki_kty (kim im k)) kts
+                      then gok_then k (if encrypt then "wrapKey" else "unwrapKey") (fin_fn crypto v)
+                      else Err (EJose InvalidKeyTypeError)
+                    else Err EOracleMiss
+                  end
+                else Err (EJose UnsupportedKeyUseError)
+    | None =>
+                  match jwe_reg_fn alg enc allowed with
+                  | Err e => Err e
+                  | Ok (fam, kts) =>
+                    if String.eqb fam "dir" then
+                      if smem (ki_kty (kim im k)) kts then fin_fn crypto v else Err (EJose InvalidKeyTypeError)
+                    else if String.eqb fam "AESKW" then
+                      if smem (ki_kty (kim im k)) kts
+                      then gok_then k (if encrypt then "wrapKey" else "unwrapKey") (fin_fn crypto v)
+                      else Err (EJose InvalidKeyTypeError)
+                    else Err EOracleMiss
+                  end
+    end.
+
+  Definition jwe_ok (encrypt : bool) (kr : keyref) (kid : option str) (alg enc : string)
+             (allowed : option (list string)) (crypto : option jcls) (lo hi : N) (r : res pv) : Prop :=
+    exists g, guess_ok kr kid encrypt alg lo hi g /\
+      r = match g with Err e => Err e | Ok (k, v) => jwe_after encrypt k v alg enc allowed crypto end.
+
+  Lemma draw_then_spec {A} l b (p : prog A) w0 w (R : A -> world -> Prop) :
+    ww w -> rsteps im w0 w ->
+    (forall w1, ww w1 -> rsteps im w0 w1 -> holds im p w1 (post w0 R)) ->
+    holds im (draw_then l b p) w (post w0 R).
+  Proof.
+    intros H R0 HP. unfold draw_then. destruct b; [|apply HP; auto].
+    apply holds_act; [exact I|]. intros w1 R1. split; [exact I|].
+    pose proof (rsteps_one im w1 ADraw I I) as S1.
+    apply HP; [eapply ww_steps; [exact H|]; eapply rsteps_trans; eauto|].
+    eapply rsteps_trans; [exact R0|]. eapply rsteps_trans; eauto.
+  Qed.
+
+  Ltac je_solve :=
+    unfold jwe_after;
+    repeat match goal with
+           | E : py_truthy_str _ = _ |- _ => rewrite E; clear E
+           | E : str_eqb _ _ = _ |- _ => rewrite E; clear E
+           | E : String.eqb _ _ = _ |- _ => rewrite E; clear E
+           | E : smem _ _ = _ |- _ => rewrite E; clear E
+           | E : jwe_reg_fn _ _ _ = _ |- _ => rewrite E; clear E
+           end;
+    reflexivity.
+
+  Definition jwe_tail_fn (encrypt : bool) (k : nat) (v : pv) (fam : string) (kts : list string) (crypto : option jcls) : res pv :=
+    if String.eqb fam "dir" then
+      if smem (ki_kty (kim im k)) kts then fin_fn crypto v else Err (EJose InvalidKeyTypeError)
+    else if String.eqb fam "AESKW" then
+      if smem (ki_kty (kim im k)) kts
+      then gok_then k (if encrypt then "wrapKey" else "unwrapKey") (fin_fn crypto v)
+      else Err (EJose InvalidKeyTypeError)
+    else Err EOracleMiss.
+
+  Lemma jwe_tail_spec encrypt k v fam kts crypto w : ww w -> vkey k ->
+    holds im
+      (if String.eqb fam "dir" then
+         (if smem (ki_kty (kim im k)) kts then draw_then "jwe.iv" encrypt (Ret (fin_fn crypto v))
+          else Ret (Err (EJose InvalidKeyTypeError)))
+       else if String.eqb fam "AESKW" then
+         draw_then "jwe.cek" encrypt
+           (if smem (ki_kty (kim im k)) kts
+            then pbindr (get_op_key true im k (if encrypt then "wrapKey" else "unwrapKey"))
+                        (fun _ => draw_then "jwe.iv" encrypt (Ret (fin_fn crypto v)))
+            else Ret (Err (EJose InvalidKeyTypeError)))
+       else Ret (Err EOracleMiss)) w
+      (post w (fun r _ => r = jwe_tail_fn encrypt k v fam kts crypto)).
+  Proof.
+    intros H V. unfold jwe_tail_fn. destruct (String.eqb fam "dir").
+    - destruct (smem (ki_kty (kim im k)) kts).
+      + apply draw_then_spec; [exact H | constructor|]. intros w1 H1 R1. apply post_ret; [exact H1 | exact R1 | reflexivity].
+      + apply post_ret; [exact H | constructor | reflexivity].
+    - destruct (String.eqb fam "AESKW"); [|apply post_ret; [exact H | constructor | reflexivity]].
+      apply draw_then_spec; [exact H | constructor|]. intros w1 H1 R1.
+      destruct (smem (ki_kty (kim im k)) kts); [|apply post_ret; [exact H1 | exact R1 | reflexivity]].
+      eapply post_bind; [apply get_op_key_spec; auto | exact R1 |].
+      intros r w2 H2 R2 [E _]. subst r. unfold gok_then.
+      destruct (cko_fn k (if encrypt then "wrapKey" else "unwrapKey")) as [[]|e].
+      + apply draw_then_spec; [exact H2 | eapply rsteps_trans; eauto|].
+        intros w3 H3 R3. apply post_ret; [exact H3 | exact R3 | reflexivity].
+      + apply post_ret; [exact H2 | eapply rsteps_trans; eauto | reflexivity].
+  Qed.
+
+  Lemma jwe_op_spec encrypt kr kid alg enc allowed crypto w : ww w -> guess_pre kr kid encrypt w ->
+    holds im (jwe_op true im pickf encrypt kr kid alg enc allowed crypto) w
+      (post w (fun r w' => jwe_ok encrypt kr kid alg enc allowed crypto (w_rng w) (w_rng w') r)).
+  Proof.
+    intros H P. unfold jwe_op, jwe_ok. fold (fin_fn crypto).
+    eapply post_bind; [apply guess_key_spec; auto | constructor |].
+    intros g w2 H2 R2 [G VK].
+    assert (forall w', rsteps im w2 w' -> guess_ok kr kid encrypt alg (w_rng w) (w_rng w') g) as G'.
+    { intros w' R'. destruct (rsteps_static im w2 w' R') as [_ [_ A]].
+      unfold guess_ok in *. destruct kr; [exact G|]. destruct (falsy_kid kid && encrypt)%bool; [|exact G].
+      destruct (cands s alg); [exact G|]. destruct G as [idx [B E]]. exists idx. split; [lia | exact E]. }
+    destruct g as [[k v]|e].
+    2: { apply post_ret; [exact H2 | exact R2|]. intros w' R'. exists (Err e). split; [apply G'; exact R' | reflexivity]. }
+    pose proof (VK k v eq_refl) as Vk. cbn [fst snd].
+    assert (forall r0 w4, ww w4 -> rsteps im w2 w4 -> r0 = jwe_after encrypt k v alg enc allowed crypto ->
+              forall w', rsteps im w4 w' ->
+              exists g, guess_ok kr kid encrypt alg (w_rng w) (w_rng w') g /\
+                 r0 = match g with Err e => Err e | Ok (k, v) => jwe_after encrypt k v alg enc allowed crypto end) as FIN.
+    { intros r0 w4 H4 R4 E w' R'. exists (Ok (k, v)). split; [|exact E]. apply G'. eapply rsteps_trans; eauto. }
+    eapply post_bind; [apply getf_spec; auto; exact use_not_kid | exact R2 |].
+    intros u w3 H3 R3 E. cbv beta in E. subst u.
+    assert (rsteps im w w3) as R03 by (eapply rsteps_trans; eauto).
+    destruct (py_truthy_str (field_of k (asc "use"))) as [su|] eqn:EU;
+      [destruct (str_eqb su (asc "enc")) eqn:ES;
+         [|apply post_ret; [exact H3 | exact R03 | apply (FIN _ w3 H3 R3); je_solve]]|].
+    all: apply holds_act; [exact I|]; intros w4 R4; (split; [exact I|]);
+      pose proof (ww_steps w3 w4 H3 R4) as H4; rewrite (jwereg_obs w4 alg enc allowed H4); cbn [sem fst];
+      assert (rsteps im w2 w4) as R24 by (eapply rsteps_trans; eauto);
+      assert (rsteps im w w4) as R04 by (eapply rsteps_trans; eauto);
+      (destruct (jwe_reg_fn alg enc allowed) as [[fam kts]|e] eqn:EG;
+         [|apply post_ret; [exact H4 | exact R04 | apply (FIN _ w4 H4 R24); je_solve]]).
+    all: apply (post_start _ w w4); [exact R04|];
+      eapply post_conseq; [|apply (jwe_tail_spec encrypt k v fam kts crypto w4 H4 Vk)];
+      intros r0 w5 H5 R5 E; cbv beta in E;
+      apply (FIN r0 w5 H5 (rsteps_trans im _ _ _ R24 R5)); [|constructor]; rewrite E; unfold jwe_tail_fn; je_solve.
+  Qed.
+
   (* ---------- as_dict, in the post format; with the kid once the key has it ---------- *)
   Definition full_view (k : nat) : dict :=
     match dget (view im k) kidK with Some _ => view im k | None => withkid im k end.
@@ -743,12 +888,14 @@ Section Calls.
     | CPick _ _ => True
     | CSetAsDict s p => Forall vkey (members s) /\ Forall (no_conflict p) (members s)
     | CJws sg kr kid _ _ _ => guess_pre kr kid sg w
+    | CJwe en kr kid _ _ _ _ => guess_pre kr kid en w
     end.
 
   Lemma call_pre_steps c w w' : ww w -> rsteps im w w' -> call_pre c w -> call_pre c w'.
   Proof.
     intros H R. destruct c; simpl; auto.
     - intros [V K]. split; [exact V | exact (kidded_steps _ w w' H R K)].
+    - destruct kr; simpl; auto. intros [V K]. split; [exact V|]. intro F. exact (kidded_steps _ w w' H R (K F)).
     - destruct kr; simpl; auto. intros [V K]. split; [exact V|]. intro F. exact (kidded_steps _ w w' H R (K F)).
   Qed.
 
@@ -767,6 +914,7 @@ Section Calls.
                      r = match o with Ok (Some k) => Ok (PInt (Z.of_nat k)) | Ok None => Ok PNone | Err e => Err e end
     | CSetAsDict s p => r = Ok (PDict [(asc "keys", PList (map (fun k => export im k p (full_view k)) (members s)))])
     | CJws sg kr kid alg allowed crypto => jws_ok sg kr kid alg allowed crypto lo hi r
+    | CJwe en kr kid alg enc allowed crypto => jwe_ok en kr kid alg enc allowed crypto lo hi r
     end.
 
   Theorem call_spec c w : ww w -> call_pre c w ->
@@ -794,6 +942,7 @@ Section Calls.
       + exists (Err e). split; [apply PK'; exact R2 | reflexivity].
     - destruct P as [V NC]. eapply post_conseq; [|apply set_as_dict_spec; auto]. intros a w1 _ _ [E _]. exact E.
     - apply jws_op_spec; auto.
+    - apply jwe_op_spec; auto.
   Qed.
 
   (* ---------- any sequence of calls, one after the other ---------- *)
@@ -821,7 +970,7 @@ Section Calls.
   Definition det (c : call) : Prop :=
     match c with
     | CThumb _ | CEnsureKid _ | CNewSet _ | CGetByKid _ _ | CSetAsDict _ _ => True
-    | CJws sg kr kid _ _ _ =>
+    | CJws sg kr kid _ _ _ | CJwe sg kr kid _ _ _ _ =>
         match kr with KKey _ => True | KSet _ => (falsy_kid kid && sg)%bool = false end
     | _ => False
     end.
@@ -836,10 +985,12 @@ Section Calls.
   Lemma call_ok_det c lo hi lo' hi' r r' : det c -> call_ok c lo hi r -> call_ok c lo' hi' r' -> r = r'.
   Proof.
     destruct c; simpl; try contradiction; try (intros _ A B; congruence).
-    intros D. unfold jws_ok. destruct sign.
-    - destruct (get_alg_fn alg allowed); [|intros; congruence].
-      intros [g [G E]] [g' [G' E']]. rewrite (guess_ok_det kr kid true alg lo hi lo' hi' g g' D G G') in E. congruence.
-    - intros [g [G E]] [g' [G' E']]. rewrite (guess_ok_det kr kid false alg lo hi lo' hi' g g' D G G') in E. congruence.
+    - intros D. unfold jws_ok. destruct sign.
+      + destruct (get_alg_fn alg allowed); [|intros; congruence].
+        intros [g [G E]] [g' [G' E']]. rewrite (guess_ok_det kr kid true alg lo hi lo' hi' g g' D G G') in E. congruence.
+      + intros [g [G E]] [g' [G' E']]. rewrite (guess_ok_det kr kid false alg lo hi lo' hi' g g' D G G') in E. congruence.
+    - intros D. unfold jwe_ok.
+      intros [g [G E]] [g' [G' E']]. rewrite (guess_ok_det kr kid encrypt alg lo hi lo' hi' g g' D G G') in E. congruence.
   Qed.
 End Calls.
 
